@@ -112,6 +112,35 @@ Proof.
 Qed.
 Print Assumptions o_equals_stdout.
 
+(** The file named by `-o` holds EXACTLY the output afterwards, whatever it held before ([prev] is
+    universally quantified: absent, shorter, longer -- no byte of the old content survives), and no
+    other path changes; a failing run changes no file at all. *)
+Theorem o_overwrites_previous_content :
+  (forall w f p (prev : fs_state),
+     cw_write_ok w p = true -> refuses_terminal (sw_wat (cf_sw f)) false (cw_tty w) = false ->
+     (exists out, fs_after prev (compose_in w (with_output f (Some p))) p = Some out /\
+                  (forall q, q <> p -> fs_after prev (compose_in w (with_output f (Some p))) q = prev q) /\
+                  compose_in w (with_output f None) = delivered None out (newline_after (sw_wat (cf_sw f))))
+     \/ (exit_code (compose_in w (with_output f (Some p))) <> 0 /\
+         forall q, fs_after prev (compose_in w (with_output f (Some p))) q = prev q)) /\
+  (forall w f p (prev : fs_state),
+     pw_write_ok w p = true -> refuses_terminal (psw_wat (pf_sw f)) false (pw_tty w) = false ->
+     (exists out, fs_after prev (plug_in w (with_poutput f (Some p))) p = Some out /\
+                  (forall q, q <> p -> fs_after prev (plug_in w (with_poutput f (Some p))) q = prev q) /\
+                  plug_in w (with_poutput f None) = delivered None out (newline_after (psw_wat (pf_sw f))))
+     \/ (exit_code (plug_in w (with_poutput f (Some p))) <> 0 /\
+         forall q, fs_after prev (plug_in w (with_poutput f (Some p))) q = prev q)).
+Proof.
+  split.
+  - intros w f p prev Wk G. apply overwrites_from_equals.
+    + apply (proj1 no_output_on_failure).
+    + now apply (proj1 o_equals_stdout).
+  - intros w f p prev Wk G. apply overwrites_from_equals.
+    + apply (proj1 (proj2 no_output_on_failure)).
+    + now apply (proj2 o_equals_stdout).
+Qed.
+Print Assumptions o_overwrites_previous_content.
+
 (** Full statement of the property text: "-o writes exactly the bytes otherwise sent to stdout".
     False of the faithful model for -t: stdout carries one more byte (a newline). *)
 Theorem o_equals_stdout_literal_refuted :
